@@ -1418,11 +1418,17 @@ class RepeatOracle(Observer):
 
     def attach(self, w):
         self.seen = {}
+        self.bw_in_iter = False  # a backward pass ran in this iteration and nothing nulled gradients since
 
     def after(self, w, ev, out):
+        if ev["k"] == "backward":
+            self.bw_in_iter = True
+        elif ev["k"] in ("null_grad", "clear"):
+            self.bw_in_iter = False  # the caller discarded gradients: nothing of this iteration is compared
         if ev["k"] != "iter_end":
             return
-        rec = w.last_backward
+        rec = w.last_backward if self.bw_in_iter else None
+        self.bw_in_iter = False
         cur = {}
         if rec is not None and rec.get("status") == "ok" and rec.get("expected") is not None and not rec.get("tainted"):
             reach = set(rec.get("reach_handles") or [])
